@@ -18,7 +18,7 @@ def SpecM.init : SpecM α := ⟨some [], some []⟩
 
 /-- one operation on `std::vector`s; `none` = the request violates a precondition
     (position / index out of range, use of a moved-from vector) -/
-def specStep [DecidableEq α] (c : Cfg α) (lt : α → α → Bool) (sp : SpecM α) (r : Bool) :
+def specStep (c : Cfg α) (eq lt : α → α → Bool) (sp : SpecM α) (r : Bool) :
     Op α → Option (SpecM α × Obs α)
   | .ctorN n => some (sp.put r (some (List.replicate n c.dflt)), .none)
   | .ctorNX n v => some (sp.put r (some (List.replicate n v)), .none)
@@ -42,7 +42,7 @@ def specStep [DecidableEq α] (c : Cfg α) (lt : α → α → Bool) (sp : SpecM
     | none => none
   | .insert pos xs =>
     match sp.get r with
-    | some l => if pos ≤ l.length then some (sp.put r (some (l.take pos ++ xs ++ l.drop pos)), .none) else none
+    | some l => if pos ≤ l.length then some (sp.put r (some (l.take pos ++ xs ++ l.drop pos)), .nat pos) else none
     | none => none
   | .resize n =>
     match sp.get r with
@@ -63,23 +63,77 @@ def specStep [DecidableEq α] (c : Cfg α) (lt : α → α → Bool) (sp : SpecM
       | some v => some (sp, .val v)
       | none => none
     | none => none
-  | .cmpEq =>
+  | .cmp k =>
     match sp.get r, sp.get (!r) with
-    | some lx, some ly => some (sp, .bool (decide (lx = ly)))
+    | some lx, some ly => some (sp, .bool (vecCmp eq lt k lx ly))
     | _, _ => none
-  | .cmpLt =>
+  | .cmpMixed _ k flip =>
     match sp.get r, sp.get (!r) with
-    | some lx, some ly => some (sp, .bool (lexLt lt lx ly))
+    | some lx, some ly => some (sp, .bool (if flip then vecCmp eq lt k ly lx else vecCmp eq lt k lx ly))
     | _, _ => none
+  | .front =>
+    match sp.get r with
+    | some l =>
+      match l[0]? with
+      | some v => some (sp, .val v)
+      | none => none
+    | none => none
+  | .back =>
+    match sp.get r with
+    | some l =>
+      match l[l.length - 1]? with
+      | some v => some (sp, .val v)
+      | none => none
+    | none => none
+  | .setFront v =>
+    match sp.get r with
+    | some l => if 0 < l.length then some (sp.put r (some (l.set 0 v)), .none) else none
+    | none => none
+  | .setBack v =>
+    match sp.get r with
+    | some l => if 0 < l.length then some (sp.put r (some (l.set (l.length - 1) v)), .none) else none
+    | none => none
+  | .dataAt i =>
+    match sp.get r with
+    | some l =>
+      match l[i]? with
+      | some v => some (sp, .val v)
+      | none => none
+    | none => none
+  | .setData i v =>
+    match sp.get r with
+    | some l => if i < l.length then some (sp.put r (some (l.set i v)), .none) else none
+    | none => none
+  | .iterFwd =>
+    match sp.get r with
+    | some l => some (sp, .list l)
+    | none => none
+  | .iterRev =>
+    match sp.get r with
+    | some l => some (sp, .list l.reverse)
+    | none => none
+  | .empty =>
+    match sp.get r with
+    | some l => some (sp, .bool (l.length == 0))
+    | none => none
+  | .size =>
+    match sp.get r with
+    | some l => some (sp, .nat l.length)
+    | none => none
+  | .capOk =>
+    match sp.get r with
+    | some _ => some (sp, .bool true)
+    | none => none
+  | .maxSize => some (sp, .nat maxSize)
 
-def specRun [DecidableEq α] (c : Cfg α) (lt : α → α → Bool) :
+def specRun (c : Cfg α) (eq lt : α → α → Bool) :
     SpecM α → List (Bool × Op α) → Option (SpecM α × List (Obs α))
   | sp, [] => some (sp, [])
   | sp, (r, op) :: rest =>
-    match specStep c lt sp r op with
+    match specStep c eq lt sp r op with
     | none => none
     | some (sp1, o) =>
-      match specRun c lt sp1 rest with
+      match specRun c eq lt sp1 rest with
       | none => none
       | some (sp2, os) => some (sp2, o :: os)
 
